@@ -55,6 +55,16 @@ PROPS = {
         "assumptions": STD_ASSUME_PURE + ["broadcast channel never overflows (each connection task sees every SendOwnState), see DESIGN.md C11/C14",
                                            "new_optimistic_peers returns at most MAX_OPTIMISTIC peers, each currently choked and interested (read off the code: choose() of that filtered list)"],
     },
+    "C10": {
+        "lean_modules": ["RdestModel.Props.C10"],
+        "cases": {"quick": 400, "thorough": 12000},
+        "rule": "(a) PieceRx::left on boundary lengths {0,1,2,B-1,B,B+1,2B-1,2B,2B+1,3B,5B+7,16B,16B+1} and random lengths up to 2 MiB vs the model and "
+                "the tiling predicate; (b) scripts for the real connection task: assignments (unchoke / have / piece-done / cancel replies) of pieces "
+                "of length {1,100,B-1,B,B+1,20000,2B,2B+1,40000,3B,5B+7}, blocks answered in random order, duplicated, withheld, foreign index or "
+                "offset, corrupt payload, cancellation by a broadcast Have, chokes; Request frames observed on the in-memory stream; the monitor P10 "
+                "evaluated on the implementation's trace and on the model's trace; distinct = distinct lines",
+        "assumptions": STD_ASSUME_PURE + ["piece length handed to the task is Metainfo::piece_length(i) (C03)"],
+    },
     "C09": {
         "lean_modules": ["RdestModel.Props.C09"],
         "cases": {"quick": 400, "thorough": 12000},
